@@ -368,6 +368,18 @@ def common_labels(I, rec, bonds) -> set:
     return out
 
 
+def v2000_store_kind(flags) -> str:
+    """where a value stored into an atom record of the V2000 reader was read: 'prop' (a value of an `M  XXX` property line:
+    it carries the label of the line-kind test), 'atom' (fixed columns of the atom line only), else 'unknown'"""
+    import re as _re
+    if _labels(flags, "@sw:"):
+        return "prop"
+    cols = [c[1:-1] for c in _labels(flags, "@col")]
+    if cols and all(_re.fullmatch(r"\d+:\d+", c) for c in cols):
+        return "atom"
+    return "unknown"
+
+
 def _labels(flags, prefix):
     return {x[len(prefix):] for x in flags if x.startswith(prefix)}
 
@@ -383,6 +395,9 @@ def r_prov(ctx) -> RuleResult:
     for ev in _uniq_events(I.events, "store"):
         sw = _labels(ev.flags, "@sw:")
         cols = {c[1:-1] for c in _labels(ev.flags, "@col")}
+        if v2000_store_kind(ev.flags) == "unknown":
+            raise AnalysisError(f"R-PROV: V2000: cannot tell whether `{short(ev.node, 60)}` stores `{ev.key}` from the atom line or from a property line "
+                                f"(columns {sorted(cols)}, no line-kind test on the path)")
         if sw:
             want = V2000_PROP_OF.get(ev.key)
             ok = want is not None and sw == {want}
@@ -619,13 +634,17 @@ def r_cols(ctx) -> RuleResult:
                    "element_symbol": {span(V2000_ATOM["symbol"])}}
     for k, want in want_fields.items():
         got = {c[1:-1] for c in _labels(taint(rec.fields.get(k)), "@col")}
+        if not got:
+            raise AnalysisError(f"R-COLS: cannot see which columns of the atom line `{k}` is read from")
         ok = got == want
         res.inst(fi.fq, f"atom line: `{k}` read from columns {sorted(got)}", "ok" if ok else "fail", detail=f"spec {sorted(want)}")
         if not ok:
             res.fail(Finding("R-COLS", fi.module.rel, "_parse_atom_line", f"{k} <- line[{sorted(got)}]", f"`{k}` is read from columns {sorted(got)}, the format has it at {sorted(want)}"))
     # charge code column: atom-line stores of chg / rad
     for ev in _uniq_events(I.events, "store"):
-        if ev.key in ("chg", "rad") and not _labels(ev.flags, "@sw:"):
+        if ev.key in ("chg", "rad") and v2000_store_kind(ev.flags) == "unknown":
+            raise AnalysisError(f"R-COLS: cannot tell whether `{short(ev.node, 60)}` stores `{ev.key}` from the atom line or from a property line")
+        if ev.key in ("chg", "rad") and v2000_store_kind(ev.flags) == "atom":
             got = {c[1:-1] for c in _labels(ev.flags, "@col")}
             ok = got == {span(V2000_ATOM["ccc"])}
             res.inst(ev.fi.fq, f"atom line: charge code read from columns {sorted(got)}", "ok" if ok else "fail")
@@ -662,56 +681,142 @@ def _slice_of(e: ast.expr) -> Optional[ast.Subscript]:
     return None
 
 
+class _SymField:
+    """columns lo:hi of line k of the symbolic file"""
+    def __init__(self, k, lo, hi):
+        self.k, self.lo, self.hi = k, lo, hi
+
+
+class _SymLine:
+    def __init__(self, k):
+        self.k = k
+
+    def __getitem__(self, s):
+        if isinstance(s, slice) and s.step is None:
+            return _SymField(self.k, s.start or 0, s.stop)
+        raise TypeError("symbolic line: only column slices")
+
+
+class _SymBlock:
+    """lines lo:hi of the symbolic file (hi None: to the end)"""
+    def __init__(self, lo, hi):
+        self.lo, self.hi = lo, hi
+
+    def __iter__(self):
+        # iterated in place (the decoder's loop is written out in the entry): one representative line
+        return iter([_SymDataLine(self)])
+
+    def __len__(self):
+        raise TypeError("length of a symbolic block")
+
+
+class _SymDataLine:
+    def __init__(self, block):
+        self.block = block
+
+
+class _SymLines:
+    """the file's line list as a symbol: indexing gives a symbolic line, slicing a symbolic block"""
+    def __getitem__(self, s):
+        if isinstance(s, slice):
+            if s.step is not None:
+                raise TypeError("stepped slice")
+            return _SymBlock(s.start or 0, s.stop)
+        if isinstance(s, int):
+            return _SymLine(s)
+        raise TypeError("symbolic lines: index")
+
+
 def _check_v2000_counts(ctx, fi: FuncInfo, res: RuleResult):
-    """evaluate the block offsets with sentinel counts A=5 atoms, B=7 bonds, L=2 atom lists"""
-    fn = fi.node
+    """Partial evaluation of the entry function on a symbolic line list with sentinel counts A=5 atoms, B=7 bonds, L=2
+    atom lists: which lines go to the atom / bond / property decoders.  Helper functions that receive the whole line list
+    are evaluated as well; decoders (functions that receive a block of lines) are recorded and not entered."""
+    from ..model import ConstEval, NotConst
     A, B, L = 5, 7, 2
     sent = {(0, 3): A, (3, 6): B, (6, 9): L}
-    lines_p = params_of(fn)[0]
-    bad_span = []
+    bad_span, blocks = [], []
 
-    def hook(value, env):
-        sl = _slice_of(value)
-        if sl is not None and isinstance(sl.value, ast.Subscript) and norm(sl.value) == f"{lines_p}[3]":
-            lo, hi = _int_or_none(sl.slice.lower, env) if sl.slice.lower else 0, _int_or_none(sl.slice.upper, env)
-            if (lo, hi) in sent:
-                return sent[(lo, hi)]
-            bad_span.append((sl, lo, hi))
+    class _Opaque:
+        """result of a decoder: a table nobody looks into here (hashable, iterates as empty, absorbs updates)"""
+        def __iter__(self):
+            return iter(())
+
+        def __len__(self):
             return 0
+
+        def __contains__(self, x):
+            return False
+
+        def items(self):
+            return ()
+
+        def keys(self):
+            return ()
+
+        def values(self):
+            return ()
+
+        def get(self, k, d=None):
+            return d
+
+        def update(self, *a, **k):
+            return None
+
+        def __or__(self, o):
+            return self
+
+        def __ior__(self, o):
+            return self
+
+    def hook(f, args, kwargs):
+        allargs = list(args) + list(kwargs.values())
+        if any(isinstance(a, _SymField) for a in allargs):
+            fld = next(a for a in allargs if isinstance(a, _SymField))
+            if fld.k == 3:
+                if (fld.lo, fld.hi) in sent:
+                    return sent[(fld.lo, fld.hi)]
+                bad_span.append((f, fld.lo, fld.hi))
+                return 0
+            raise NotConst("field of a data line")
+        if any(isinstance(a, (_SymBlock, _SymDataLine)) for a in allargs):
+            blk = next(a for a in allargs if isinstance(a, (_SymBlock, _SymDataLine)))
+            blk = blk.block if isinstance(blk, _SymDataLine) else blk
+            if not any(b_[1:] == (blk.lo, blk.hi) and b_[0].fq == f.fq for b_ in blocks):
+                blocks.append((f, blk.lo, blk.hi))
+            ret = annotation_text(f)
+            return (_Opaque(), _Opaque()) if ret.startswith("tuple") else _Opaque()
+        if any(isinstance(a, _SymLines) for a in allargs):
+            return NotImplemented       # a helper working on the whole file: evaluate it
+        if any(isinstance(a, _Opaque) for a in allargs):
+            return _Opaque()            # post-processing of decoded tables
         return NotImplemented
-    env = run_straightline(fn.body, {}, call_hook=hook)
-    for sl, lo, hi in bad_span:
-        res.inst(fi.fq, f"counts line field `{short(sl)}`", "fail")
-        res.fail(Finding("R-COLS", fi.module.rel, fi.qualname, norm(sl), f"counts-line slice {lo}:{hi} is not one of the fields aaa (0:3), bbb (3:6), lll (6:9)", line=sl.lineno))
-    # block slices: lines[X : X + N] passed to calls
-    blocks = []
-    for n in own_walk(fn):
-        if isinstance(n, ast.Call):
-            for a in n.args:
-                if isinstance(a, ast.Subscript) and isinstance(a.slice, ast.Slice) and isinstance(a.value, ast.Name) and a.value.id == lines_p:
-                    lo = _int_or_none(a.slice.lower, env) if a.slice.lower else 0
-                    hi = _int_or_none(a.slice.upper, env) if a.slice.upper else None
-                    blocks.append((n, a, lo, hi))
+
+    def annotation_text(f):
+        from ..model import annotation_name
+        return annotation_name(f.node.returns) or ""
+    ce = ConstEval(ctx.repo, fi.module, hook)
+    try:
+        ce.call_function(fi, [_SymLines()], {})
+    except (NotConst, TypeError, KeyError, IndexError, ValueError, AttributeError) as ex:
+        raise AnalysisError(f"R-COLS: cannot evaluate how {fi.qualname} cuts the file into blocks ({type(ex).__name__}: {ex})")
+    for f, lo, hi in bad_span:
+        res.inst(fi.fq, f"counts line field [{lo}:{hi}] read by {f.name}", "fail")
+        res.fail(Finding("R-COLS", fi.module.rel, fi.qualname, f"lines[3][{lo}:{hi}]", f"counts-line slice {lo}:{hi} is not one of the fields aaa (0:3), bbb (3:6), lll (6:9)", line=fi.node.lineno))
     if len(blocks) < 3:
         raise AnalysisError("R-COLS: V2000 entry no longer slices the line list into atom / bond / property blocks")
     want = {"atom": (4, 4 + A), "bond": (4 + A, 4 + A + B)}
-    for n, a, lo, hi in blocks:
-        callee = norm(n.func)
-        if "atom" in callee:
-            role = "atom"
-        elif "bond" in callee:
-            role = "bond"
-        else:
-            role = "prop"
+    for f, lo, hi in blocks:
+        callee = f.name
+        role = "atom" if "atom" in callee and "bond" not in callee else "bond" if "bond" in callee else "prop"
         if role in want:
             ok = (lo, hi) == want[role]
             why = f"{role} block = lines[{lo}:{hi}] for counts (5 atoms, 7 bonds, 2 lists); format: lines[{want[role][0]}:{want[role][1]}]"
         else:
             ok = lo is not None and hi is None and 4 + A <= lo <= 4 + A + B + L
             why = f"property scan starts at line {lo} for counts (5, 7, 2); must start within [{4 + A}, {4 + A + B + L}] and run to the end"
-        res.inst(fi.fq, short(a), "ok" if ok else "fail", detail=why)
+        res.inst(fi.fq, f"lines[{lo}:{hi if hi is not None else ''}] -> {callee}", "ok" if ok else "fail", detail=why)
         if not ok:
-            res.fail(Finding("R-COLS", fi.module.rel, fi.qualname, norm(a), why, line=a.lineno))
+            res.fail(Finding("R-COLS", fi.module.rel, fi.qualname, f"lines[{lo}:{hi if hi is not None else ''}] -> {callee}", why, line=fi.node.lineno))
 
 
 def _check_index_offsets(ctx, f: FuncInfo, res: RuleResult):
